@@ -990,6 +990,17 @@ structure ParseResult where
   errs : List Err
   deriving Repr, Inhabited, DecidableEq
 
+/-- `ParseResult::into_result` (`lib.rs:258-264`): `Ok(output)` only when there is no error at all -/
+def ParseResult.intoResult (r : ParseResult) : Except (List Err) Val :=
+  if r.errs.isEmpty then
+    match r.output with
+    | some v => .ok v
+    | none => .error r.errs
+  else .error r.errs
+
+def ParseResult.hasOutput (r : ParseResult) : Bool := r.output.isSome
+def ParseResult.hasErrors (r : ParseResult) : Bool := !r.errs.isEmpty
+
 inductive TopOut where
   | result (r : ParseResult) (final : St)
   | panic (why : Nat)
